@@ -126,7 +126,7 @@ fn atom_case(a: &Atom) -> String {
     let a1 = clone_atom(a); let a2 = clone_atom(a);
     let sv = guarded(move || a1.subvalence()); let sh = guarded(move || a2.suppressed_hydrogens());
     let f = |r: Result<u8, String>| match r { Ok(v) => format!("(Some {}%N)", v), Err(_) => "None".into() };
-    format!("AC {} {} {} {}", coq_atom(a), f(sv), f(sh), a.is_aromatic())
+    format!("AC {} {} {} {} [{}]%N", coq_atom(a), f(sv), f(sh), a.is_aromatic(), a.kind.targets().iter().map(|t| t.to_string()).collect::<Vec<_>>().join("; "))
 }
 fn kind_case(k: &AtomKind, rng: &mut Rng, alpha: &[char]) -> String {
     let text = k.to_string();
@@ -179,7 +179,12 @@ fn main() {
             cases.push(pool_case(&(0..110).map(|i| (i, i + 1000)).collect::<Vec<_>>()));
             // many sequential rings
             cases.push(pool_case(&(0..300).flat_map(|i| vec![(i, i + 1), (i + 1, i)]).collect::<Vec<_>>()));
-            while cases.len() < count { let npairs = 1 + rng.below(6); let len = rng.below(24); let seq: Vec<(usize, usize)> = (0..len).map(|_| { let p = rng.below(npairs); if rng.chance(1, 2) { (p, p + 10) } else { (p + 10, p) } }).collect(); cases.push(pool_case(&seq)) } },
+            while cases.len() < count {
+                // unordered pairs over a small id range so that many distinct pairs (and both orientations) are open at once
+                let ids = match rng.below(4) { 0 => 4, 1 => 8, 2 => 12, _ => 30 };
+                let len = rng.below(40);
+                let seq: Vec<(usize, usize)> = (0..len).map(|_| { let a = rng.below(ids); let mut b = rng.below(ids); if a == b { b = (b + 1) % ids } (a, b) }).collect();
+                cases.push(pool_case(&seq)) } },
         "atom" => while cases.len() < count {
             let deg = match rng.below(10) { 0 => 250 + rng.below(60), 1 => rng.below(40), _ => rng.below(7) };
             let kind = if rng.chance(1, 2) { gen_kind(&mut rng) } else if rng.chance(1, 2) { AtomKind::Aliphatic(purr_verif_harness::enums_gen::all_aliphatic().swap_remove(rng.below(12))) } else { AtomKind::Aromatic(purr_verif_harness::enums_gen::all_aromatic().swap_remove(rng.below(6))) };
